@@ -257,10 +257,12 @@ theorem htmlKids_of_fin {s : State} (h : Fin s) :
 theorem e2_newTB {opts : Opts} {s1 : State} {u : Unit} (e : newTB (State.init opts) = .ok (u, s1)) : E2 s1 := by
   unfold newTB at e
   obtain ⟨doc, s0, e1, e2⟩ := bind_ok.mp e
-  have h0 : E2 (State.init opts) := ⟨rfl, rfl, rfl⟩
-  have h1 : E2 s0 := h0.ke e1
+  have h0 : E2 (State.init opts) := ⟨rfl, rfl, rfl, AdjD.new⟩
+  have h1 : E2 s0 := h0.keq e1 (by
+    obtain ⟨d, hd, rfl⟩ := sink_ok.mp (sinkNode_ok.mp e1)
+    exact (inferInstance : QuietOp .getDocument).h _ _ _ hd)
   rw [modS_ok.mp e2]
-  exact ⟨h1.af, h1.form, h1.fp⟩
+  exact ⟨h1.af, h1.form, h1.fp, h1.adj⟩
 
 /-- the layer-2 invariant in every reachable state, given the rules -/
 theorem reachable_i2 (R : Rules) {opts : Opts} {toks : List (TokToken × Nat)} {s : State}
